@@ -674,10 +674,9 @@ Expr={expr}"""
     def _partitions(self, index):
         # Used by `partitions` for partition-wise slicing
 
-        # Convert index to list
-        if isinstance(index, int):
-            index = [index]
-        index = np.arange(self.npartitions, dtype=object)[index].tolist()
+        # Convert index to list, any scalar (python or numpy) selects one partition
+        index = np.arange(self.npartitions, dtype=object)[index]
+        index = index.tolist() if isinstance(index, np.ndarray) else [index]
 
         # Check that selection makes sense
         assert set(index).issubset(range(self.npartitions))
